@@ -277,6 +277,11 @@ func scenarioC09(r *Run) {
 			// first hop that discarded the raw bytes: output must be canonical
 			dropped = true
 			if why := nonCanonicalDeep(w.Dec, out); why != "" {
+				if timeTaggedKeyInProtected(w.Dec, first) {
+					// root cause known (K3's, met in a message): see known_findings.json
+					r.Fail("reencoding-breaks/time-tagged-map-key", "hop %d (raw discarded): a map inside a protected header has a key tagged 0/1 (date/time), which is re-encoded as a bare number: %s\naccepted input: %s\noutput: %s", h, why, hexShort(first), hexShort(out))
+					return
+				}
 				r.Fail("dropraw-output-not-canonical/"+spec.Kind.String(), "hop %d (raw discarded): output is not deterministic CBOR: %s\noutput: %s", h, why, hexShort(out))
 				return
 			}
@@ -292,4 +297,15 @@ func scenarioC09(r *Run) {
 		cur = out
 	}
 	r.Outcome("hops:" + pattern)
+}
+
+// timeTaggedKeyInProtected: some map inside a protected header of the message
+// has a key wrapped in tag 0 or 1.
+func timeTaggedKeyInProtected(dec string, b []byte) bool {
+	for _, p := range protectedItems(dec, b) {
+		if len(p.Data) > 0 && hasTimeTaggedMapKey(p.Data) {
+			return true
+		}
+	}
+	return false
 }
